@@ -45,8 +45,10 @@ def wait_rebuilt(sq, timeout=20.0):
     return False
 
 
-async def run_history(ctx, tree, kind, ops, n, rnd, stop='clean', crash_at=None, partial=None, shim=None):
-    """-> dict(ev=[...], writes=int, died=bool)"""
+async def run_history(ctx, tree, kind, ops, n, rnd, stop='clean', crash_at=None, partial=None, shim=None, same_second=False):
+    """-> dict(ev=[...], writes=int, died=bool).  same_second: every origin response carries the same Date (rock derives its
+    slot-chain version from it); otherwise consecutive responses carry Dates one second apart (all in the recent past)."""
+    t_date = time.time() - 3600
     ev = []
     sizes = {'a': rnd.choice(SIZES), 'b': rnd.choice(SIZES)}
     contacted = set()
@@ -61,8 +63,10 @@ async def run_history(ctx, tree, kind, ops, n, rnd, stop='clean', crash_at=None,
         v = _ver[0]
         L = sizes.get(key, 1000)
         oc.vinfo = (v, key, L)
-        await oc.send(peers.response_head(200, 'OK', [('Content-Length', str(L)), ('Cache-Control', 'max-age=86400'), ('Date', peers.http_date()),
-                                                      ('X-Verif-Version', str(v))]) + peers.body_bytes(v, L))
+        ok = await oc.send(peers.response_head(200, 'OK', [('Content-Length', str(L)), ('Cache-Control', 'max-age=86400'), ('Date', peers.http_date(t_date if same_second else t_date + (v % 3000))),
+                                                           ('X-Verif-Version', str(v))]) + peers.body_bytes(v, L))
+        if ok:
+            ev.append({'e': 'Produced', 'v': v, 'key': key, 'len': L})
         return False
     rec = peers.Rec()
     origin = await peers.Origin(rec, responder).start()
@@ -128,19 +132,20 @@ async def run_history(ctx, tree, kind, ops, n, rnd, stop='clean', crash_at=None,
             contacted.clear()
             r, vid = await get(key)
             hv = -1
-            bv, intact = -1, True
+            bv, intact, bad = -1, True, None
             if r is not None and r.head is not None and r.head.get('X-Verif-Version'):
                 hv = int(r.head.get('X-Verif-Version'))
                 if r.body:
-                    intact, _ = peers.project_body(r.body, hv)
+                    intact, bad = peers.project_body(r.body, hv)
                     bv = hv if intact else -2
             ev.append({'e': 'After', 'key': key, 'contacted': vid in contacted, 'hv': hv, 'bv': bv, 'blen': len(r.body) if r is not None else 0,
-                       'intact': bool(intact), 'complete': bool(r is not None and r.complete)})
+                       'intact': bool(intact), 'complete': bool(r is not None and r.complete),
+                       'first_bad_offset': bad, 'bytes_at_bad': (r.body[max(0, bad - 16):bad + 32].decode('latin-1') if bad is not None else '')})
         alive_after = sq.alive()
     finally:
         await origin.stop()
         sq.stop()
-    return {'ev': ev, 'writes': writes, 'died': died, 'rebuilt': rebuilt, 'alive_after': alive_after, 'kind': kind, 'ops': ops, 'sizes': sizes, 'crash_at': crash_at, 'partial': partial}
+    return {'ev': ev, 'writes': writes, 'died': died, 'rebuilt': rebuilt, 'alive_after': alive_after, 'kind': kind, 'ops': ops, 'sizes': sizes, 'crash_at': crash_at, 'partial': partial, 'same_second': same_second}
 
 
 def fill(ev):
